@@ -28,6 +28,7 @@ type Kernel struct {
 	Sim *sched.Sim
 	// Fault weights (0 = off).
 	DupWeight, DropWriteWeight, AddFailWeight int
+	ErrWeight                                 int // an error on the watcher's Errors channel
 	OnFault                                   func(kind string)
 
 	mu      sync.Mutex
@@ -200,8 +201,19 @@ func (k *Kernel) deliverLoop() {
 				return
 			}
 		}
-		opts := []sched.Option{{"deliver", 12}, {"duplicate", k.weight(k.DupWeight)}, {"drop-write", k.weight(k.DropWriteWeight)}}
+		opts := []sched.Option{{"deliver", 12}, {"duplicate", k.weight(k.DupWeight)}, {"drop-write", k.weight(k.DropWriteWeight)}, {"error", k.weight(k.ErrWeight)}}
 		c := k.Sim.Park("kernel:deliver", opts)
+		if c == 3 {
+			// The backend reports an error (read error on the inotify descriptor, a path it
+			// could not resolve). Nothing is lost: the queue is untouched.
+			k.fault("fsnotify_error_reported")
+			select {
+			case k.w.Errors <- errors.New("simulated fsnotify error"):
+			case <-k.done:
+				return
+			}
+			continue
+		}
 		k.mu.Lock()
 		if len(k.queue) == 0 {
 			k.mu.Unlock()
